@@ -72,6 +72,9 @@ pub struct Stage {
     pub eof_at: Option<usize>,
     /// fd 0 and fd 1 are real pipes (pre-filled and closed / drained after exit) instead of memfds
     pub pipes: bool,
+    /// surplus positional arguments after <logic> [data] (a usage error: only "ends with an exit status,
+    /// prints no result" is judged)
+    pub extra_args: Vec<String>,
 }
 
 #[derive(Clone, Debug)]
@@ -106,6 +109,7 @@ impl Stage {
             "ambient": self.ambient.to_json(),
             "eof_at": self.eof_at,
             "pipes": self.pipes,
+            "extra_args": self.extra_args,
         })
     }
     fn from_json(v: &Value) -> Option<Stage> {
@@ -125,6 +129,7 @@ impl Stage {
             ambient: v.get("ambient").and_then(Ambient::from_json).unwrap_or_default(),
             eof_at: v.get("eof_at").and_then(|e| e.as_u64()).map(|e| e as usize),
             pipes: v.get("pipes").and_then(|e| e.as_bool()).unwrap_or(false),
+            extra_args: v.get("extra_args").and_then(|e| e.as_array()).map(|a| a.iter().filter_map(|x| x.as_str().map(String::from)).collect()).unwrap_or_default(),
         })
     }
 }
@@ -286,7 +291,13 @@ fn gen_stage(rng: &mut Rng, corpus: &Corpus, second: bool) -> Stage {
     let ambient = Ambient::draw(rng);
     // what `a | jsonlogic r | jsonlogic r2` really hands the process: pipes, not regular files
     let pipes = data_text.len() < 100_000 && rng.chance(1, 3);
-    Stage { rule_text, data_text, form, sep, read, flips, w1, w2, ambient, eof_at: None, pipes }
+    let mut extra_args = Vec::new();
+    if !second && form == Form::Arg && rng.chance(1, 25) {
+        for _ in 0..rng.range(1, 2) {
+            extra_args.push((*rng.pick(&["null", "{}", "", "'", "-", "extra", "é", "[1,2]", " "])).to_string());
+        }
+    }
+    Stage { rule_text, data_text, form, sep, read, flips, w1, w2, ambient, eof_at: None, pipes, extra_args }
 }
 
 pub fn gen_case(seed: u64, profile: &str, corpus: &Corpus) -> Case {
@@ -395,6 +406,9 @@ pub fn run_stage(env: &Env, profile: &str, stage: &Stage, budget: u64) -> StageR
             cmd.arg("-");
         }
         Form::StdinOmitted => {}
+    }
+    for x in &stage.extra_args {
+        cmd.arg(x);
     }
     cmd.env_clear();
     for (k, v) in &stage.ambient.env {
@@ -769,6 +783,9 @@ fn tally(stage: &Stage, res: &StageResult, expect: &Expect, st: &mut CaseStats) 
     if stage.pipes {
         bump(&mut st.probes, "stdin-and-stdout-are-real-pipes", 1);
     }
+    if !stage.extra_args.is_empty() {
+        bump(&mut st.probes, "surplus-positional-arguments", 1);
+    }
     let k = match expect {
         Expect::Success { .. } => "expected-success",
         Expect::Failure { .. } => "expected-failure",
@@ -803,9 +820,13 @@ pub fn run_case(env: &Env, case: &Case, oracle: &mut Oracle) -> (Vec<Violation>,
         return (v, st);
     }
     let r1 = run_stage(env, &case.profile, s1, budget);
-    let (e1, op1) = match s1.form {
-        Form::Arg => pre,
-        _ => expectation(&s1.rule_text, intended_bytes(s1, Some(&r1)).as_deref(), oracle),
+    let (e1, op1) = if !s1.extra_args.is_empty() {
+        (Expect::Failure { log_prefix: String::new(), why: "surplus positional argument (usage error)".into() }, None)
+    } else {
+        match s1.form {
+            Form::Arg => pre,
+            _ => expectation(&s1.rule_text, intended_bytes(s1, Some(&r1)).as_deref(), oracle),
+        }
     };
     tally(s1, &r1, &e1, &mut st);
     v.extend(judge_stage(1, s1, &r1, &e1, &op1, budget));
@@ -815,7 +836,9 @@ pub fn run_case(env: &Env, case: &Case, oracle: &mut Oracle) -> (Vec<Violation>,
         for e in &r1.trace {
             if let Ev::Other(w) = e {
                 if let Some(n) = w.strip_prefix("getenv ") {
-                    let known = n.starts_with("RUST_") || n.starts_with("SIMIO_") || n.starts_with("LD_") || n.starts_with("MALLOC_") || n.starts_with("GLIBC_") || n.starts_with("LC_") || n == "LANG" || n == "LANGUAGE" || n == "TZ" || n == "TZDIR" || n == "NLSPATH";
+                    let known = n.starts_with("RUST_") || n.starts_with("SIMIO_") || n.starts_with("LD_") || n.starts_with("MALLOC_") || n.starts_with("GLIBC_") || n.starts_with("LC_") || n == "LANG" || n == "LANGUAGE" || n == "TZ" || n == "TZDIR" || n == "NLSPATH"
+                        // read by the argument parser when it formats a usage error for the terminal
+                        || n == "TERM" || n == "COLUMNS" || n == "LINES" || n == "NO_COLOR" || n == "CLICOLOR" || n == "CLICOLOR_FORCE";
                     if !known && !names.iter().any(|x| x == n) && !s1.ambient.env.iter().any(|(k, _)| k == n) && names.len() < 3 {
                         names.push(n.to_string());
                     }
@@ -828,9 +851,13 @@ pub fn run_case(env: &Env, case: &Case, oracle: &mut Oracle) -> (Vec<Violation>,
                 s1b.ambient.env.push((n.clone(), val.to_string()));
                 let rb = run_stage(env, &case.profile, &s1b, budget);
                 bump(&mut st.fired, "ambient-env-var-discovered-by-getenv", 1);
-                let (eb, opb) = match s1b.form {
-                    Form::Arg => expectation(&s1b.rule_text, Some(&s1b.data_text), oracle),
-                    _ => expectation(&s1b.rule_text, intended_bytes(&s1b, Some(&rb)).as_deref(), oracle),
+                let (eb, opb) = if !s1b.extra_args.is_empty() {
+                    (Expect::Failure { log_prefix: String::new(), why: "surplus positional argument (usage error)".into() }, None)
+                } else {
+                    match s1b.form {
+                        Form::Arg => expectation(&s1b.rule_text, Some(&s1b.data_text), oracle),
+                        _ => expectation(&s1b.rule_text, intended_bytes(&s1b, Some(&rb)).as_deref(), oracle),
+                    }
                 };
                 let vb = judge_stage(1, &s1b, &rb, &eb, &opb, budget);
                 if !vb.is_empty() {
@@ -889,6 +916,7 @@ pub fn sweep_case(env: &Env, case: &Case, oracle: &mut Oracle) -> (Vec<(Case, Vi
     base.ambient = Ambient::default();
     base.eof_at = None;
     base.pipes = false;
+    base.extra_args.clear();
     let len = base.data_text.len();
     let mut variants: Vec<Stage> = Vec::new();
     // the producer dies after exactly p bytes, for every p
@@ -1320,6 +1348,10 @@ pub fn command_line(s: &Stage) -> String {
         }
         Form::StdinDash => c.push_str(&format!(" - <<< {}", sh_quote(&String::from_utf8_lossy(&s.data_text)))),
         Form::StdinOmitted => c.push_str(&format!(" <<< {}", sh_quote(&String::from_utf8_lossy(&s.data_text)))),
+    }
+    for x in &s.extra_args {
+        c.push(' ');
+        c.push_str(&sh_quote(x));
     }
     c
 }
